@@ -143,7 +143,7 @@ Inductive titem :=
 | TDrained (stopped : bool) (empty_after : bool).   (* executeQueue returned *)
 
 (* the drain's own record (not observable as such): which task was taken and what became of it *)
-Inductive fate := Executed | DroppedDead | DroppedFlag | ActionNotAlive.
+Inductive fate := Executed | DroppedDead | DroppedOffField | DroppedFlag | ActionNotAlive.
 Record entry := mkE { e_task : task; e_fate : fate }.
 
 Record sim := mkS {
@@ -199,6 +199,7 @@ Definition apply_eff (s : sim) (e : eff) : sim :=
       end
   | ERevive u =>
       match zget (s_life s) u with
+      | Some LDead => s                         (* death is final: a dead unit stays dead *)
       | Some _ => with_life s (zset (s_life s) u LAlive)
       | None => s
       end
@@ -256,13 +257,22 @@ Definition exit_reason (s : sim) : option Z :=
   | _, _ => None
   end.
 
-(* one iteration of the loop in executeQueue; None when the queue is empty *)
+(* sim.onField: the unit is (still) a member of the living side lists (the harness has no
+   neutral units) *)
+Definition on_field (s : sim) (u : Z) : bool := zmem u (s_chars s) || zmem u (s_enemies s).
+
+(* one iteration of the loop in executeQueue; None when the queue is empty.  When a side has
+   been wiped out since the last exit check the battle ends before anything is taken. *)
 Definition iter (s : sim) : option (sim * bool) :=
   match pop_min (s_q s) with
   | None => None
   | Some (t, q') =>
+      match exit_reason s with
+      | Some r => Some (emit s [TTermination r], true)      (* the queue keeps its pending tasks *)
+      | None =>
       let s0 := with_q s q' in
       if lstate_eqb (life_of s0 (t_src t)) LDead then Some (record s0 (mkE t DroppedDead), false)
+      else if negb (on_field s0 (t_src t)) then Some (record s0 (mkE t DroppedOffField), false)
       else if has_flag s0 (t_src t) (t_flags t) then Some (record s0 (mkE t DroppedFlag), false)
       else
         let (s1, f) := execute s0 t in
@@ -271,6 +281,7 @@ Definition iter (s : sim) : option (sim * bool) :=
         | Some r => Some (emit s2 [TTermination r], true)
         | None => Some (s2, false)
         end
+      end
   end.
 
 (* executeQueue; fuel bounds the number of tasks taken *)
@@ -286,11 +297,16 @@ Fixpoint drain (fuel : nat) (s : sim) : option (sim * bool) :=
   end.
 
 (* ---- what the harness does: effects issued between drains, and drains ---- *)
-Inductive top := TEff (e : eff) | TDrain.
+(* TLeave u: the unit is taken off the field (as the turn-end death check does with a unit
+   still in limbo) without touching its life state *)
+Inductive top := TEff (e : eff) | TDrain | TLeave (u : Z).
 
 Definition top_step (fuel : nat) (s : sim) (o : top) : option (sim * bool) :=
   match o with
   | TEff e => Some (apply_eff s e, false)
+  | TLeave u =>
+      Some (with_sides s (filter (fun x => negb (x =? u)) (s_chars s))
+                         (filter (fun x => negb (x =? u)) (s_enemies s)), false)
   | TDrain =>
       match drain fuel s with
       | Some (s', stopped) => Some (emit s' [TDrained stopped (q_is_empty (s_q s'))], stopped)
